@@ -2731,7 +2731,10 @@ def permutations(lhs, ctx):
     lhs = iterable(lhs, ctx=ctx)
     return LazyList(
         map(
-            lambda x: "".join(x) if all(isinstance(y, str) for y in x) else x,
+            lambda x: "".join(x)
+            if all(isinstance(y, str) for y in x)
+            and (x or isinstance(lhs, str))  # the empty permutation of a list is a list
+            else x,
             itertools.permutations(
                 iterable(lhs, number_type=range, ctx=ctx), len(lhs)
             ),
